@@ -901,7 +901,7 @@ fn build_projection(raw: &Raw, op: &str, aspect: &str, mut c: Cur, mut ell: Stri
             let south = aspect.ends_with("south") || (!aspect.ends_with("north") && c.flag(0.5));
             let latc = rd(c.lin(2.0, 80.0), 4) * if south { -1.0 } else { 1.0 };
             let lonc = if wrap { rd(c.lin(172.0, 180.0), 4) * if c.flag(0.5) { -1.0 } else { 1.0 } } else { rd(c.lin(-180.0, 180.0), 4) };
-            let alpha = if aspect.ends_with("alpha90") { 90.0 } else { rd(c.lin(1.0, 89.0), 5) * if c.flag(0.3) { -1.0 } else { 1.0 } };
+            let alpha = if aspect.ends_with("alpha90") { 90.0 } else { rd(c.lin(1.0, 179.0), 5) * if c.flag(0.3) { -1.0 } else { 1.0 } };
             def.push_str(&format!(" latc={latc} lonc={lonc} alpha={alpha}"));
             if aspect != "laborde" {
                 let g = if c.flag(0.5) { alpha } else { rd(alpha + c.lin(-2.0, 2.0), 5) };
@@ -1138,7 +1138,7 @@ fn err_m(sp: Sp, el: &El, p: &Coor4D, r: &Coor4D) -> f64 {
 fn lattice(sp: Sp, c: &Coor4D, el: &El) -> Coor4D {
     let r = |v: f64, step: f64| (v / step).round() * step;
     // 1 mm on the Earth; proportionally less on a (much) smaller body, where 1 mm is a large angle
-    let mm = if el.a < 1.0e6 { 1.0e3 * EARTH_A / el.a } else { 1.0e3 };
+    let mm = if el.a < 1.0e6 && sp == Sp::Plane { 1.0e3 * EARTH_A / el.a } else { 1.0e3 };
     let mut o = *c;
     match sp {
         Sp::Geo | Sp::AuxLat => {
@@ -1770,7 +1770,7 @@ fn main() {
     );
 
     // 1. every catalogue entry x every ellipsoid (47 built-in + one random), deterministic draws
-    let reps = run.scale(1, 6);
+    let reps = run.scale(4, 24);
     let npts = if run.is_thorough() { 256 } else { 64 };
     let nk = KINDS.len();
     let seed = run.seed;
@@ -1787,7 +1787,7 @@ fn main() {
     );
 
     // 2. random operator instances
-    let n = run.scale(6000, 200_000);
+    let n = run.scale(40_000, 700_000);
     let maxpts = if run.is_thorough() { 256 } else { 128 };
     run.section(
         "operators-random",
@@ -1799,7 +1799,7 @@ fn main() {
 
     // 2b. the grid files shipped with the library, inside their coverage
     let nf = FILE_GRIDS.len();
-    let reps = run.scale(6, 60);
+    let reps = run.scale(30, 300);
     run.sweep(
         "shipped-grids",
         "gridshift / deformation with each grid file shipped in /repo/geodesy (Gravsoft datum, geoid, deformation; NTv2 with and without sub-grid), served by GridCtx, points in the central 90 % of the coverage",
@@ -1809,7 +1809,7 @@ fn main() {
     );
 
     // 3. typed pipelines and macros
-    let n = run.scale(3000, 80_000);
+    let n = run.scale(15_000, 300_000);
     run.section(
         "pipelines",
         "type-correct pipelines (external lat/lon degrees | lon/lat degrees | radians -> 0..2 datum shifts cart|helmert|cart inv -> optional projection utm/tmerc/merc/webmerc/lcc/laea/omerc/btmerc -> output adaptors), plain or wrapped in sub-chain / whole / nested / parameterised macros; points within 2 degrees of a random centre; tolerance = sum of the step tolerances; macro invocations also get the inv twin check",
